@@ -134,11 +134,11 @@ def sensitivity_case(rec, seedt, backend):
     cross = bool(rng.random() < 0.5)
     x = gen.record(rng, N, "white")
     y = gen.second_channel(rng, x, "mixed")
-    amp = 1e4 * float(np.std(x))
+    amp = float(rng.choice([1e4, 1e4, 1e9, 3e10])) * float(np.std(x))
     which = str(rng.choice(["x", "y"])) if cross else "x"
     tr = pure_power_trend(N, order + 1, amp)
     desc = {"kind": "sensitivity", "seed": list(seedt), "backend": backend, "N": N,
-            "order": order, "cross": cross, "which": which}
+            "order": order, "cross": cross, "which": which, "amp_over_rms": amp / float(np.std(x))}
     rec.case(desc, nontrivial=True)
     kw = dict(order=order, scheduler=str(rng.choice(gen.SCHEDS)), backend=backend, win="hann",
               Jdes=20, Kdes=10, olap=0.5)
@@ -170,7 +170,7 @@ def sensitivity_case(rec, seedt, backend):
     if not (change.max() > thr):
         what = "an added constant" if order == -1 else f"a degree-{order + 1} trend"
         rec.violation(f"over-detrending:{backend}",
-                      f"order {order}: {what} (amp 1e4 x rms) changed the low bins by only "
+                      f"order {order}: {what} (amp {amp / float(np.std(x)):.0e} x rms) changed the low bins by only "
                       f"{change.max():.3e} x (amp*sum w)^2 (expected > {thr:g}): detrending removes "
                       f"more than a degree-{max(order, 0)} polynomial" if order >= 0 else
                       f"order -1 must not detrend, but an added constant changed the low bins by "
